@@ -5,9 +5,10 @@ C16 — from `bind` values to servers: the glue of addresses.go
 `serversFromPairings` (httptype.go), for site blocks with ONE key `http://<host>:<port>` each.
 Transliterated with its quirks:
 
-* `listenersForServerBlockAddress` tests `listeners[addr.String()]` (the SITE address, never a
-  key of that map), so the protocol set of a listener address is started afresh by every `bind`
-  value that names it: only the protocols of the last one survive (`listenersFor`);
+* `listenersForServerBlockAddress` keeps one protocol set per listener address and every `bind`
+  value naming the address ADDS to it (`addBind`; since 4efd026 — before, the lookup used the
+  site address, never a key of that map, so every `bind` started the set afresh and only the
+  protocols of the last one survived: `addBindOld`);
 * `consolidateAddrMappings` snapshots the protocols of an address before visiting them and
   deletes merged entries while it goes, so a protocol whose entry was merged into an earlier
   one is still visited, finds nothing, and yields a pairing without addresses and blocks — an
@@ -54,13 +55,21 @@ def sortKeys (l : List String) : List String := l.foldl (fun acc x => insSorted 
 /-- `networkAddr.String()` for a tcp host and the site's port -/
 def lnAddr (port host : String) : String := host ++ ":" ++ port
 
-/-- one `lnCfgVal`: every address starts a fresh protocol set (the quirk), then gets the protocols -/
+/-- one `lnCfgVal`: each of its addresses gets a protocol set if it has none yet, then the protocols -/
 def addBind (port : String) (m : List (String × List String)) (b : BindVal) : List (String × List String) :=
+  b.addrs.foldl (fun acc h => setS acc (lnAddr port h) (sortKeys (((lookupS acc (lnAddr port h)).getD []) ++ b.prots))) m
+
+/-- before 4efd026: `listeners[addr.String()]` tested the SITE address, so the set was always
+started afresh -/
+def addBindOld (port : String) (m : List (String × List String)) (b : BindVal) : List (String × List String) :=
   b.addrs.foldl (fun acc h => setS acc (lnAddr port h) (sortKeys b.prots)) m
 
 /-- listener address → protocol set; without any `bind`: the wildcard host with default protocols -/
 def listenersFor (port : String) (binds : List BindVal) : List (String × List String) :=
   if binds.isEmpty then [(lnAddr port "", [])] else binds.foldl (addBind port) []
+
+def listenersForOld (port : String) (binds : List BindVal) : List (String × List String) :=
+  if binds.isEmpty then [(lnAddr port "", [])] else binds.foldl (addBindOld port) []
 
 /-! ### mapAddressToProtocolToServerBlocks -/
 
